@@ -1143,8 +1143,12 @@ def _take(ctx: Ctx):
                 vals[k] = rand_prim_value(ctx.rng)
             sd["vals"] = vals
             app = {"app": StateDict(**sd)}
-            path = os.path.join(root, str(i))
-            inp = {"kind": "take", "keys": [_key_p(k) for k in vals], "vals": [_prim_proto(v) for v in vals.values()]}
+            # every other snapshot goes to one rolling location (old snapshot deleted, new one taken at the same path):
+            # whatever the process remembers about a path must not outlive the snapshot that was there (seed C14-H)
+            path = os.path.join(root, "latest" if i % 2 else str(i))
+            shutil.rmtree(path, ignore_errors=True)
+            ctx.count("take.rolling_path" if i % 2 else "take.fresh_path")
+            inp = {"kind": "take", "rolling": bool(i % 2), "keys": [_key_p(k) for k in vals], "vals": [_prim_proto(v) for v in vals.values()]}
             try:
                 snap = Snapshot.take(path, app)
                 written = snap.metadata
